@@ -13,7 +13,7 @@ MIN_NONTRIVIAL = {"quick": 100, "thorough": 3000}
 BLOB = (300, 900)
 NO_SHRINK = True   # one generated history expands into hundreds of (history, fault) runs; the failing pair is reported as is
 API = ("service", "is_busy", "is_hold", "is_full", "trig_event", "trig_read", "trig_test", "hold_exit")
-RULE = ("Hypothesis generates call histories: 1-3 command lines (multi-step handlers, variables with callbacks, HOLD) and events on a small table, interleaved with "
+RULE = ("Hypothesis generates call histories: 1-3 command lines (multi-step handlers, variables with callbacks, HOLD, HOLD_EXIT_* from read/test handlers of both state machines) and events on a small table (event command sometimes only_test or disabled; repeated release requests while held), interleaved with "
         "all seven other locking API functions (cat_is_busy, cat_is_hold, cat_is_unsolicited_buffer_full, cat_trigger_unsolicited_event/_read/_test, cat_hold_exit) "
         "at generated service steps, with a stub mutex. For each history the fault-free run is checked against the lock grammar, then lock #k and (separately) "
         "unlock #k are made to fail for EVERY k up to a bound (70 quick / 400 thorough) - one re-run per k - plus one generated multi-fault plan. Grammar: exactly one "
